@@ -189,6 +189,9 @@ def r15_tie_funnel(ctx):
                       "every path to this return passes E.logAction('tie', ...)", 'a tie among several candidates can be resolved without a tie log')
             # what is returned
             ok, how = _tie_choice_ok(ctx, bt, cfg, r, tied)
+            if ok is None:
+                ctx.unrecognised(R, r, bt, 'the candidate breakTie returns', how)
+                continue
             ctx.check(ok, R, r, bt, 'a tie is resolved by the declared tie-break order: first listed wins', how, how)
 
 
@@ -198,6 +201,21 @@ def _tie_choice_ok(ctx, bt, cfg, r, tied):
     expr = v
     if isinstance(v, ast.Name):
         rd = reaching_defs(cfg, v.id, rn)
+        if len(rd) > 1 and all(d_ is not cfg.entry and d_.kind == 'stmt' and isinstance(d_.ast, ast.Assign) for d_ in rd):
+            # several definitions reach the return (`if ...: c0 = byTieOrder(tied)[0] else: c0 = <member singled out earlier>`):
+            # each is judged; one that is not understood makes the verdict "not recognised", not "wrong"
+            verdicts = []
+            for d_ in rd:
+                e_ = d_.ast.value
+                if _is_first_by_tie_order(ctx, bt, e_, tied):
+                    verdicts.append(True)
+                elif _plainly_other_choice(e_, tied):
+                    return False, 'breakTie returns `%s`, not C.byTieOrder(%s)[0]' % (unparse(e_), tied)
+                else:
+                    verdicts.append(None)
+            if all(v_ is True for v_ in verdicts):
+                return True, 'C.byTieOrder(%s)[0] on every definition reaching the return' % tied
+            return None, 'returned local `%s` has a definition that is neither C.byTieOrder(%s)[0] nor a recognised prior-stage choice' % (v.id, tied)
         if len(rd) == 1 and rd[0] is not cfg.entry:
             d = rd[0]
             if d.kind == 'stmt' and isinstance(d.ast, ast.Assign):
@@ -225,6 +243,23 @@ def _tie_choice_ok(ctx, bt, cfg, r, tied):
             and len(expr.value.args) == 1 and unparse(expr.value.args[0]) == tied and not expr.value.keywords:
         return True, 'C.byTieOrder(%s)[0]: lowest tie rank = first in the declared order' % tied
     return False, 'breakTie returns `%s`, not C.byTieOrder(%s)[0]' % (unparse(expr), tied)
+
+
+def _is_first_by_tie_order(ctx, bt, expr, tied):
+    return isinstance(expr, ast.Subscript) and isinstance(expr.slice, ast.Constant) and expr.slice.value == 0 \
+        and isinstance(expr.value, ast.Call) and isinstance(expr.value.func, ast.Attribute) \
+        and expr.value.func.attr == 'byTieOrder' and ctx.canon(expr.value.func.value, bt) == 'E.C' \
+        and len(expr.value.args) == 1 and unparse(expr.value.args[0]) == tied and not expr.value.keywords
+
+
+def _plainly_other_choice(expr, tied):
+    """an element picked from the tied list by position, by another order, or at random"""
+    if isinstance(expr, ast.Subscript):
+        return True
+    if isinstance(expr, ast.Call):
+        nm = expr.func.attr if isinstance(expr.func, ast.Attribute) else (expr.func.id if isinstance(expr.func, ast.Name) else '')
+        return nm in ('pop', 'choice', 'min', 'max', 'sorted', 'byVote', 'byBallotOrder', 'byCid', 'sample', 'shuffle')
+    return False
 
 
 # ---------------------------------------------------------------------------
@@ -378,7 +413,11 @@ def breakTie(tied, reason=None):
         ok_all = False
         if dir_def is not None and len(loops) == 1:
             ok_all = _same(ref) or _same(ref.replace('range(E.round - 1, -1, -1)', 'reversed(range(E.round))'))
-        ctx.check(ok_all, R, loops[0] if loops else bt.node, bt,
+        if dir_def is None or len(loops) != 1:
+            ctx.unrecognised(R, bt.node, bt, 'the Scottish prior-stage search of breakTie',
+                             'no single stage loop with a single definition of the index inside breakTie (moved into a helper?)')
+        else:
+          ctx.check(ok_all, R, loops[0] if loops else bt.node, bt,
                   'Scottish tie-break: earlier stages are scanned most recent first; at each, the tied candidates\' tallies of that stage are sorted '
                   'ascending and those with the lowest (defeat) / highest (surplus) tally kept; a single survivor decides',
                   "direction = 0 if reason.find('defeat') >= 0 else -1; for n in range(E.round-1, -1, -1): tiedCN = C.byVote(...); keep == tiedCN[direction].vote "
